@@ -65,7 +65,7 @@ def repo_hash():
         for dp, dn, fn in os.walk(root):
             dn[:] = sorted(d for d in dn if d != "build")
             for f in sorted(fn):
-                if f.endswith((".c", ".h", ".inc")):
+                if f.endswith((".c", ".h", ".inc", ".flags")):
                     p = os.path.join(dp, f)
                     h.update(p.encode())
                     with open(p, "rb") as fh:
@@ -290,13 +290,15 @@ def run_harness(exe, ops, workdir, tag, env_extra=None, timeout=3600):
         elif "runtime error:" in err:
             m = re.search(r"runtime error: (.*)", err)
             kind = "ubsan:" + (m.group(1)[:80].replace(" ", "_") if m else "ub")
+        elif p.returncode == -14:
+            kind = "timeout:operation-did-not-terminate"
         elif p.returncode < 0:
             kind = f"signal:{-p.returncode}"
         results[done] = "CRASH " + kind
         crashes.append((done, kind, err))
         start = done + 1
         restarts += 1
-        if restarts > 60:
+        if restarts > 200:
             for i in range(start, len(ops)):
                 results[i] = "SKIPPED too-many-crashes"
             break
@@ -447,8 +449,8 @@ def check_property(prop, tier, seed):
             crash_hits.append((cfg, i, kind, err))
         if model is not None:
             for (i, keys) in compare(spec, ops, impl, model):
-                if impl[i] and impl[i].startswith("CRASH"):
-                    continue  # reported as crash
+                if impl[i] and impl[i].startswith(("CRASH", "SKIPPED")):
+                    continue  # reported as crash / not executed after too many crashes
                 kf = props.match_known(known, ops[i], "DIFF")
                 if kf:
                     known_seen.setdefault(kf["id"], (ops[i], "diff"))
